@@ -152,6 +152,20 @@ Theorem C02_first_entry_gone :
 Proof. exact first_gone_witness. Qed.
 Print Assumptions C02_first_entry_gone.
 
+(** Why [atoMS * ts <= 1000 * en_0] is there (finding): 4 x 2 s loop, availabilityTimeOffset 2.5 s,
+    now = 7.9 s.  Segment 4 is available from 7.5 s on (200 from the server) but the MPD ends with
+    segment 3 until 8 s: the segment just after the MPD's live edge is not refused. *)
+Theorem C02_big_ato_refuted :
+  exists r loopMS c atoMS now,
+    wf r loopMS /\ startS c * 1000 <= now /\ 0 <= tsbdS c /\ ato c = Some atoMS /\ 0 <= atoMS /\
+    1000 * en (segAt r 0) < atoMS * ts r /\
+    let se := generateTimelineEntries r (calcWrapTimes loopMS c now (1000 * tsbdS c)) atoMS in
+    0 <= se_lsi_nr se < window_last r c atoMS now /\
+    exists m, lookup r loopMS c ByTime (se_lsi_start se + se_lsi_dur se) now = TOk m /\
+              newNr m = startNr c + (se_lsi_nr se + 1).
+Proof. exact big_ato_witness. Qed.
+Print Assumptions C02_big_ato_refuted.
+
 (** Non-vacuity: 4 x 2 s loop (testpic_2s/V300), start 30 s, startNumber 7, tsbd 10 s,
     availabilityTimeOffset 0.5 s, now = 100 s: segments 29..34 are listed, all served with their
     (t, d, number), number 35 is too early; right after the start the list is empty until the
